@@ -43,10 +43,24 @@ def file_docs(start):
     return out
 
 
+# the model's second prefix "foo" stands for any prefix name a document may choose; XML allows capitals, digits, '-', '_' and '.'.
+# Names that share letters with XTCE element names (U..nit, Hdr/H..eader, S..paceSystem) are legitimate prefixes too.
+SPELLINGS = ["foo", "U", "Hdr", "XTCE", "SPCEITBRLUDAFHMNOV", "x", "n-1", "a.b", "_p", "Parameter", "e"]
+
+
+def actual_prefix(r, rng):
+    if r["prefix"] != "foo" or r["style"] != "prefix":
+        return r["prefix"]
+    if "_actual" not in r:
+        r["_actual"] = rng.choice(SPELLINGS)
+    return r["_actual"]
+
+
 def xml_for(doc, r, rng):
     if doc["kind"] == "file":
         xml = doc["raw"]
     else:
+        r = dict(r, prefix=actual_prefix(r, rng))
         xml = xdoc.render(doc["defn"], style=r["style"], prefix=r["prefix"], extra_ns=r["xsi"], comments=rng.random() < 0.5,
                           od=rng.random() < 0.5, base_first=rng.random() < 0.5).encode()
     if r["fault"] == "malformed":
@@ -76,8 +90,9 @@ def do_load(doc, r, rng):
     """one real load; returns (outcome, gp, gm, same, note)"""
     from space_packet_parser import common
     from space_packet_parser.xtce.definitions import XtcePacketDefinition
+    actual = actual_prefix(r, rng) if doc["kind"] == "gen" else r["prefix"]
     xml = xml_for(doc, r, rng)
-    arg = "bogus" if r["fault"] == "badprefix" else (r["prefix"] if r["style"] == "prefix" else None)
+    arg = "bogus" if r["fault"] == "badprefix" else (actual if r["style"] == "prefix" else None)
     note = ""
     try:
         kw = {"root_container_name": doc["defn"]["root"]} if doc["kind"] == "gen" else {}
@@ -86,8 +101,9 @@ def do_load(doc, r, rng):
     except Exception as e:  # noqa: BLE001
         outcome, d, note = "failed", None, f"{type(e).__name__}: {e}"[:160]
     E = common.NamespaceAwareElement
-    gp = E._ns_prefix if E._ns_prefix is not None else NONE
-    gm = sorted([[k if k is not None else NONE, v] for k, v in dict(E._nsmap).items()])
+    back = lambda k: "foo" if k in SPELLINGS else k      # the model knows every spelling as "foo" (also one left by an earlier load)
+    gp = back(E._ns_prefix) if E._ns_prefix is not None else NONE
+    gm = sorted([[back(k) if k is not None else NONE, v] for k, v in dict(E._nsmap).items()])
     same = True
     if d is not None:
         p = project.project(d)
@@ -97,6 +113,8 @@ def do_load(doc, r, rng):
             miss = (cs - set(p["containers"])) | (ps - set(p["params"])) | (ts - set(p["types"]))
             same = not diffs and not miss
             note = "; ".join(diffs[:2]) + (" missing " + str(sorted(miss)[:3]) if miss else "")
+            if actual != r["prefix"]:
+                note += f" [prefix spelled {actual!r}]"
         else:
             if doc["baseline"] is None:
                 doc["baseline"] = p
